@@ -6,14 +6,18 @@
    the sender is rejection, rate limiting or disconnection; state used by honest peers is unaffected by
    rejected input.
 
-   The pinned code VIOLATES this (reproduced on the real handlers by harness/src/bin/c11.rs and listed in
-   known_findings.txt).  What is proved:
+   The pinned code VIOLATED this in many places (each reproduced on the real handlers by harness/src/bin/c11.rs;
+   see the `fixed: property=C11` lines of known_findings.txt); the message-level crash inputs were repaired by
+   commits 6f9c6f9 (Block tag), d1384db (ghost-chain request without key), 3bd37ad (request id u64::MAX),
+   d479d43 (key list beyond the quota), ae2aeaa (handshake response under another key), eeb4ec7 (golden-ticket
+   payload), and the model follows the repaired code.  What is proved:
    (1) over the regenerated inventory of panic sites of the peer-facing code (gen/PanicSites.v) every site is
        classified by the reviewed table model/PanicClass.v -- a new or renamed site fails this obligation;
-   (2) over the message-level model of the routing thread's dispatch (model/Handlers.v): the listed crash
-       inputs are the ONLY inputs that panic (and they do), and a message touches no entry but its sender's.
+   (2) over the message-level model of the routing thread's dispatch (model/Handlers.v): no sequence of inputs
+       panics, and a message touches no entry but its sender's.
    Chain / ledger / pool processing of accepted-for-processing blocks and transactions is delegated (model answers
-   Ok there); tokio scheduling and channel back-pressure are not modelled. *)
+   Ok there; two listed findings live there: the crash after an orphan block, and ghost chains on lite nodes);
+   tokio scheduling and channel back-pressure are not modelled. *)
 From Saito Require Import Base Handlers HandlersProofs PanicClass PanicSites PanicClassProofs.
 From Coq Require Import String.
 Open Scope N_scope.
@@ -25,24 +29,19 @@ Open Scope N_scope.
 Theorem C11_classified : forall s, In s PanicSites.sites -> classified s.
 Proof. exact classified_all. Qed.
 
-(* the panics of the handler model are sites of that inventory, classified as listed findings *)
+(* the panics of the handler model are sites of that inventory, classified as listed findings
+   (at this commit the model raises none: Handlers.model_sites = []) *)
 Theorem C11_model_sites_listed : forall s, In s Handlers.model_sites ->
   In s PanicSites.sites /\ exists id, classify s = Some (Known id).
 Proof. exact model_sites_listed. Qed.
 
-(* (2) the property fails on the model as it fails on the code: one witness per listed message-level input
-   (connection 2; key number 3) *)
-Theorem C11_no_panic_refuted_block_tag :
-  exists st', run (init false false true) [(0, 2, EConn); (0, 2, ENet (Some MBlock))] = Panic site_block_tag st'.
-Proof. eexists. vm_compute. reflexivity. Qed.
-
-Theorem C11_no_panic_refuted_ghost_request :
-  exists st', run (init false false true) [(0, 2, EConn); (0, 2, ENet (Some (MGhostReq false)))] = Panic site_ghost_key st'.
-Proof. eexists. vm_compute. reflexivity. Qed.
-
-Theorem C11_no_panic_refuted_key_list :
-  exists st', run (init false false true)
-    ((0, 2, EConn) :: repeat (5, 2, ENet (Some (MKeyList 1))) 101) = Panic site_keylist st'.
+(* (2) the witnesses that existed on the pinned tree (Block-tagged message, ghost-chain request without key, the key
+   list exceeding the quota) are gone with the repairs 6f9c6f9 / d1384db / 3bd37ad / d479d43; the model follows
+   the repaired code *)
+Example C11_former_witnesses_return :
+  exists st, run (init true false true)
+    ([(0, 2, EConn); (0, 2, ENet (Some MBlock)); (0, 2, ENet (Some (MGhostReq true)))]
+     ++ repeat (5, 2, ENet (Some (MKeyList 1))) 101) = Done st.
 Proof. eexists. vm_compute. reflexivity. Qed.
 
 (* two further witnesses existed on the pinned tree and are gone with the repairs the model follows:
@@ -66,10 +65,9 @@ Theorem C11_dispatch_safe : forall st msgs,
   ~ Known_C11 st msgs -> forall site st', run st msgs <> Panic site st'.
 Proof. intros st msgs. exact (dispatch_safe msgs st). Qed.
 
-(* the class is exact: each listed input, in the state in which it is listed, does panic *)
-Theorem C11_known_inputs_panic : forall st i,
-  known_input st i = true -> exists s, snd (step st (fst (fst i)) (snd (fst i)) (snd i)) = OPanic s.
-Proof. exact known_input_panics. Qed.
+(* ... and since nothing is listed any more, unconditionally *)
+Theorem C11_dispatch_never_panics : forall st msgs site st', run st msgs <> Panic site st'.
+Proof. intros st msgs. exact (never_panics msgs st). Qed.
 
 (* frame: whatever a connection delivers (any outcome, including the panicking ones), the entries of all other
    connections are untouched ... *)
@@ -108,10 +106,7 @@ Eval vm_compute in ("@@C11-UNCLASSIFIED", unclassified PanicSites.sites, stale_e
 
 Print Assumptions C11_classified.
 Print Assumptions C11_model_sites_listed.
-Print Assumptions C11_no_panic_refuted_block_tag.
-Print Assumptions C11_no_panic_refuted_ghost_request.
-Print Assumptions C11_no_panic_refuted_key_list.
 Print Assumptions C11_dispatch_safe.
-Print Assumptions C11_known_inputs_panic.
+Print Assumptions C11_dispatch_never_panics.
 Print Assumptions C11_frame.
 Print Assumptions C11_reject_preserves_honest.
